@@ -32,9 +32,10 @@ register('C09', 'exploration',
          'DESIGN.md 3 C09')
 register('C10', 'exploration',
          "seeded histories of 2-12 operations on ONE schema object with 0-3 abort faults inside operations (strict "
-         "failure, stop-validation hook, foreign exception from user hooks, I/O error on the stream, async abort raised "
-         "from the trace function at the k-th library call); every completed fault-free operation must equal the same "
-         "operation on a pristine forked schema; nothing is relaxed after an abort.",
+         "failure, stop-validation hook, foreign exception from user hooks, I/O error on the stream, transient failure "
+         "of the peer behind on-demand namespace locations, async abort raised from the trace function at the k-th "
+         "library call or at a measured position inside one of 30 state-writing functions); every completed fault-free "
+         "operation must equal the same operation on a pristine forked schema; nothing is relaxed after an abort.",
          TB,
          "deterministic simulation: operation histories with crash-point (abort) injection; pristine-fork reference model",
          'DESIGN.md 3 C10')
@@ -50,7 +51,8 @@ register('C11', 'fault_enumeration',
          'DESIGN.md 3 C11')
 register('C12', 'fault_enumeration',
          "the product allow mode x reference mechanism x location spelling (x main source kind in the thorough tier) is "
-         "enumerated over a scratch file tree and a stub peer; fetch faults drive the fallback loop to a second candidate; "
+         "enumerated over a scratch file tree and a stub peer (main sources incl. a response stream that names a remote "
+         "origin); fetch faults drive the fallback loop to a second candidate; "
          "every file open / URL request the process attempts is logged by an audit hook + the stub peer and classified by "
          "an independent classifier written against the statement (realpath/commonpath for the sandbox); non-influence is "
          "checked through marker components.",
@@ -61,7 +63,8 @@ register('C13', 'fault_enumeration',
          "every (payload, channel) pair of the catalogue (9 entity/DTD payloads + 3 benign x 28 channels) is enumerated "
          "each run; defuse mode, role (instance, lazy instance, via schema settings, main/included/imported schema), "
          "prolog variant (BOM, UTF-16, latin-1, padding past 8/16/64 KiB) and delivery plan (incl. cuts inside '<!ENTITY') "
-         "are seeded; the peer may re-serve different bytes on the second open. Oracle: forbidden before expansion, no "
+         "are seeded; the peer may re-serve different bytes on the second open, a schema part may live on the other side "
+         "(local/remote) of the main schema, one read of the stream may fail once during the pre-parse. Oracle: forbidden before expansion, no "
          "fetch of the external target, nothing parsed contains the marker, benign documents parse identically.",
          TB + "; a stream that only carries a remote .url attribute is not claimed as remote data",
          "deterministic simulation: stream class/seekability/delivery seams, misbehaving peer (re-serve), audit-hook monitor",
